@@ -1,5 +1,5 @@
 CONSTANTS
-  Pairs = {"h1h1", "h1h2", "h2h1", "h2h2"}
+  Pairs = {"h1h1", "h2h2"}
   Segs = {"a", "%2F", "%20", "..", ".", "", "*", "a%3Fb", "a;b", "a+b", "%E4%BD%A0"}
   MaxSegs = 2
   Queries = {"-", "?", "x=1", "x=%2F&y=", "a=b%20c&a=+", "x=1?y=2"}
